@@ -31,6 +31,15 @@ Theorem C18_join_shape : forall p q, p <> [] -> is_absolute q = false ->
 Proof. exact join_shape. Qed.
 Print Assumptions C18_join_shape.
 
+(* no bytes invented: for EVERY string the name is a suffix of it and the parent directory a prefix of it *)
+Theorem C18_name_is_suffix : forall s, exists pre, s = pre ++ get_path_name s.
+Proof. exact name_is_suffix. Qed.
+Print Assumptions C18_name_is_suffix.
+
+Theorem C18_parent_is_prefix : forall s d, get_parent s = Some d -> exists rest, s = d ++ rest.
+Proof. exact parent_is_prefix. Qed.
+Print Assumptions C18_parent_is_prefix.
+
 (* totality: getParentDirectory never erases beyond the end of the string, whatever the input
    (empty, "/", "//", "a/", only separators, ...) *)
 Theorem C18_parent_total : forall s, get_parent s <> None.
